@@ -637,3 +637,54 @@ func FreePartialFrameClose(rng *Rng) (string, Cfg) {
 	c.WaitInput = 1
 	return "free-partial-frame-close", c
 }
+
+// GatedOverflowThenShutdown: error returns of the API are part of the history.  A tiny outbound
+// queue (1..3) and a writer held at its first dequeue make SendPacket answer
+// ErrConnOutboundOverflow deterministically; then the connection is shut down in one of the
+// ways (Close, ForceClose, the peer's FIN seen by the reader), with further sends from a second
+// goroutine in between, everything else in seeded random order.
+func GatedOverflowThenShutdown(rng *Rng) (string, Cfg) {
+	c := base(rng, 1)
+	var g idGen
+	c.Ocap = rng.Range(1, 3)
+	n := c.Ocap + 1 + rng.Range(1, 3) // at least one overflow while the writer holds one packet
+	c.Senders = [][]PktSpec{g.pkts(rng, n, smallSizes), g.pkts(rng, rng.Range(1, 4), smallSizes)}
+	c.Icap = 8
+	c.Script = []Dir{{DRun, TSender * 1000, 3 * n}}
+	how := rng.Intn(3)
+	name := "gated-overflow-then-close"
+	switch how {
+	case 0:
+		c.Closers = []bool{true}
+		c.Input = inputFrames(rng, rng.Range(0, 1), smallSizes)
+	case 1:
+		c.Closers = []bool{false, true}
+		c.Input = nil
+		name = "gated-overflow-then-forceclose"
+	case 2:
+		c.Closers = []bool{true}
+		c.Input = []InItem{{2, 7000, 0}} // the peer's FIN: the reader calls ForceClose
+		c.Script = append(c.Script, Dir{DEnv, EvPeerWrite, 0}, Dir{DUntil, TReader * 1000, PReaderExit})
+		name = "gated-overflow-then-peer-fin"
+	}
+	c.Script = append(c.Script, Dir{DRun, TSender*1000 + 1, rng.Range(0, 4)}, Dir{DRand, rng.Range(5, 40), 0})
+	return name, c
+}
+
+// FreeOverflowThenShutdown: the same at full speed: tiny queue, a peer that reads late (the
+// writer is blocked or slow), many sends (most overflow), then Close / ForceClose concurrently
+// with more sends.
+func FreeOverflowThenShutdown(rng *Rng) (string, Cfg) {
+	c := base(rng, 0)
+	var g idGen
+	c.Ocap = rng.Range(1, 3)
+	ns := rng.Range(1, 3)
+	for i := 0; i < ns; i++ {
+		c.Senders = append(c.Senders, g.pkts(rng, rng.Range(10, 40), []int{100, 1000, 4000}))
+	}
+	c.Closers = []bool{rng.Bool(), true}
+	c.PeerRead = rng.PickInt(0, 1, 2)
+	c.Input = nil
+	c.CloseAfter = rng.Intn(2)
+	return "free-overflow-then-shutdown", c
+}
